@@ -161,6 +161,20 @@ def check_case(case):
             cp = B.c_code(odep, schemes=["explicit_euler"], remove_unused=ru)
         except Exception as ex:
             raise Violation(f"C10:permutation-codegen:{type(ex).__name__}", dict(ctx, error=str(ex)[:500]))
+        if pyp != py0 or cp != c0:
+            # sympy's cosmetic simplification of conditions inside the printers is occasionally not reproducible
+            # (transient InconsistentAssumptions inside simplify, caught by gotranx, leave a condition unsimplified;
+            # not a function of the text: the same pair passes when repeated, see DESIGN section 5). Generate both
+            # again from scratch: only a difference that persists is a violation, otherwise the case is inconclusive
+            try:
+                sch = ["explicit_euler", "generalized_rush_larsen"] if schemes_ok else ["explicit_euler"]
+                o0, op2 = B.load(t0), B.load(tp)
+                py0b, pypb = B.py_code(o0, schemes=sch, remove_unused=ru), B.py_code(op2, schemes=sch, remove_unused=ru)
+                c0b, cpb = B.c_code(o0, schemes=["explicit_euler"], remove_unused=ru), B.c_code(op2, schemes=["explicit_euler"], remove_unused=ru)
+            except Exception as ex:
+                raise Inconclusive(f"regeneration:{type(ex).__name__}")
+            if py0b == pypb and c0b == cpb:
+                raise Inconclusive("output-difference-not-reproducible")
         if pyp != py0:
             raise Violation("C10:python-output-differs", dict(ctx, diff=_first_diff(py0, pyp)))
         if cp != c0:
